@@ -33,6 +33,12 @@ def run(res, a):
                 nproc = rnd.choice([1, 2, 3, 5])
                 reqs.append({"bm": pipeline(nproc, rnd.choice([8, 16, 32])), "call": call, "n": n, "conc": conc,
                              "input": [str(rnd.randrange(100))], "nproc": nproc})
+    # calls that fail before the simulation starts (the expectation names an output the machine does not have) must release
+    # whatever they had started as well
+    for n, conc in ((10, 0), (40, 4)):
+        nproc = rnd.choice([1, 2, 3])
+        reqs.append({"bm": pipeline(nproc, 8), "call": "fitness", "n": n, "conc": conc, "input": [str(rnd.randrange(100))], "nproc": nproc,
+                     "expobj": "o7", "fails": True})
     reqs.append({"bm": {}, "call": "assemble", "n": 10, "conc": 0, "basm": BASM, "nproc": 0})
     if a.replay:
         reqs = [json.load(open(a.replay))["replay"]["request"]]
@@ -44,7 +50,11 @@ def run(res, a):
         res.count_case({k: q[k] for k in ("call", "n", "conc", "nproc")}, nontrivial=q["n"] >= 10)
         if r.get("err"):
             raise C.Broken("c17 harness: " + r["err"])
-        if any(x.startswith("err:") for x in r.get("results") or []):
+        if q.get("fails"):
+            if not all(x.startswith("err:") for x in r.get("results") or ["?"]):
+                viol.append(("Fitness_default accepts an expectation about an output the machine does not have: %s" % r.get("results"), q))
+                continue
+        elif any(x.startswith("err:") for x in r.get("results") or []):
             viol.append(("call %s failed: %s" % (q["call"], r["results"]), q))
             continue
         heap.append({"call": q["call"], "n": q["n"], "heap_growth_bytes": r["heapafter"] - r["heapbefore"]})
